@@ -23,16 +23,19 @@ RULE = ("schemas over every field family including nested schemas, config-type f
         "inspect.signature(function) minus its first parameter, nothing is written to stdout (captured at file-"
         "descriptor level and through sys.stdout), schema fingerprint and configuration snapshot unchanged; "
         "non-trivial = >= 3 fields and (>= 1 method or virtual field or nested part); distinct = distinct schema")
-REQUIRED = ("fields_registered_under_a_second_name", "fields_also_used_by_another_schema", "methods_with_percent_in_annotations", "methods_registered_twice_compared", "input:nested-configtype", "decorated_methods_compared", "virtual_getters_with_string_annotations", "schemas_with_soft_keyword_names", "calls_without_class_name", "schemas_with_long_declaration", "input:nested-schema", "input:nested-config", "bare:empty", "bare:virtual", "bare:methods", "bare:both", "repeat_generations_compared", "dynamic_config_with_adhoc_field", "stubs_parsed", "attribute_sets_compared", "init_signatures_compared", "method_signatures_compared",
+REQUIRED = ("methods_called_as_the_stub_declares", "fields_registered_under_a_second_name", "fields_also_used_by_another_schema", "methods_with_percent_in_annotations", "methods_registered_twice_compared", "input:nested-configtype", "decorated_methods_compared", "virtual_getters_with_string_annotations", "schemas_with_soft_keyword_names", "calls_without_class_name", "schemas_with_long_declaration", "input:nested-schema", "input:nested-config", "bare:empty", "bare:virtual", "bare:methods", "bare:both", "repeat_generations_compared", "dynamic_config_with_adhoc_field", "stubs_parsed", "attribute_sets_compared", "init_signatures_compared", "method_signatures_compared",
             "stdout_captures", "side_effect_checks", "input:schema", "input:config", "input:configtype",
             "methods_with_return_annotation", "schemas_with_configtype_field")
-ASSUMPTIONS = ["functions always name their first (configuration) parameter; positional-only parameters are not generated"]
+ASSUMPTIONS = ["functions always name their first (configuration) parameter; positional-only parameters are not generated",
+               "parameter annotations are classes, typing constructs, strings or None; an annotation that is some other object "
+               "(a tuple, a number) makes the generator raise TypeError('Unknown storage_type') - not a type, not judged; a RETURN "
+               "annotation of that kind is left out of the stub, which is judged like any other"]
 ANNOTATIONS = ["", "", ": int", ": str", ": float", ": typing.Optional[int]", ": typing.List[str]", ": 'Config'", ": None",
                ": typing.Dict[str, typing.Any]", ": bool", ": LocalCls", ": Outer", ": Outer.Inner", ": bytes",
                # annotations whose text carries characters that mean something to string formatting
                ": typing.Literal['50%', '100%']", ": 'typing.Literal[\"%s\"]'", ": typing.Literal['{0}', '%(n)d']"]
 RETURNS = ["", "", " -> int", " -> str", " -> None", " -> typing.List[int]", " -> 'Config'", " -> typing.Optional[str]", " -> bool",
-           " -> LocalCls", " -> Outer.Inner", " -> typing.Literal['%d%%']", " -> 'typing.Literal[\"{}\", \"%\"]'"]
+           " -> LocalCls", " -> Outer.Inner", " -> typing.Literal['%d%%']", " -> [int]", " -> (int, str)", " -> 'typing.Literal[\"{}\", \"%\"]'"]
 
 
 def gen_method(rng, key):
@@ -182,6 +185,7 @@ def run(case, ctx, res):
     cc = ctx.cc
     root = spec.resolve(case["schema"], {"$FX": ctx.sb.fx})
     built = spec.build(cc, root)
+    spec_root = root
     schema = built.schema
     name = case["name"]
     res.count("input:" + case["as"])
@@ -245,6 +249,12 @@ def run(case, ctx, res):
         target, kw = cfg, {"class_name": name}
     else:
         target, kw = cc.make_type(schema, name, module="vf_types"), {}
+    holder_cfg = cfg
+    if root is not spec_root:
+        try:
+            holder_cfg = getattr(cfg, root["key"])
+        except Exception:
+            holder_cfg = None
     has_ctype = any(ch["kind"] == "ctype" for ch in root["fields"])
     if has_ctype:
         res.count("schemas_with_configtype_field")
@@ -379,6 +389,23 @@ def run(case, ctx, res):
             "kwonly": [a.arg for a in fn.args.kwonlyargs],
             "kw": fn.args.kwarg.arg if fn.args.kwarg else None,
         }
+        # ... and a call written after the stub reaches the bound function (the configuration goes in as first argument)
+        if holder_cfg is not None:
+            args = [1 for p in params if p.kind == p.POSITIONAL_OR_KEYWORD and p.default is p.empty]
+            if want["star"]:
+                args += [1 for p in params if p.kind == p.POSITIONAL_OR_KEYWORD and p.default is not p.empty] + [2, 3]
+            kwargs = {p.name: 1 for p in params if p.kind == p.KEYWORD_ONLY and p.default is p.empty}
+            if want["kw"]:
+                kwargs["zz_extra"] = 1
+            try:
+                out = getattr(holder_cfg, m["key"])(*args, **kwargs)
+                res.count("methods_called_as_the_stub_declares")
+            except Exception as exc:
+                res.viol("M-stub", "method-call", "calling %s(*%r, **%r) as the stub declares it raised %r" % (m["key"], args, kwargs, exc))
+                return
+            if out is not None:
+                res.viol("M-stub", "method-call", "calling %s returned %r, the function returns None" % (m["key"], out))
+                return
         if [a.arg for a in fn.args.args][:1] != ["self"] or got != want or fn.args.posonlyargs:
             which = next((k for k in ("pos", "star", "kwonly", "kw") if got[k] != want[k]), "self")
             res.viol("M-stub", "method-signature:" + which, "method %s: stub declares %r, the function %r has %r" % (
